@@ -134,7 +134,7 @@ PROPS = {
         assumptions=["the NOR simulator counts a program that would need a 0->1 transition"],
     ),
     "C05": dict(
-        modules=["Fuota.Props.C05"],
+        modules=["Fuota.Props.C05", "Fuota.Props.RingRefine"],
         closure=dict(quick=[4, 5], thorough=[4, 5, 6]),
         suites=[dict(name="d6", cfg="matrix", keys=["res", "ops", "fw", "par"])],
         rule="ring histories: random interleavings of start (also starting over a live session, with invalid "
@@ -146,7 +146,7 @@ PROPS = {
         assumptions=["no sequence-number wrap-around (2^32-2 updates)"],
     ),
     "C12": dict(
-        modules=["Fuota.Props.C12"],
+        modules=["Fuota.Props.C12", "Fuota.Props.RingRefine"],
         closure=dict(quick=[4, 5], thorough=[4, 5, 6]),
         suites=[dict(name="d6", cfg="matrix", keys=["res"])],
         rule="same ring histories as C05; after every step bl_boot_status and fallback_firmware are compared with the "
@@ -157,7 +157,7 @@ PROPS = {
                      "the bootloader status is idle)"],
     ),
     "C13": dict(
-        modules=["Fuota.Props.C13"],
+        modules=["Fuota.Props.C13", "Fuota.Props.RingRefine"],
         closure=dict(quick=[4, 5], thorough=[4, 5, 6]),
         suites=[dict(name="d6", cfg="matrix", keys=["res", "ops"]),
                 dict(name="d5w", cfg="matrix", keys=["res", "ops"])],
